@@ -54,7 +54,14 @@ func scenarioC13(r *Run) {
 		if notify {
 			*s.FAR(2) = FARSpec{ID: 2, Action: ActBUFF | ActNOCP, DstIface: IfAccess, HasFwd: true}
 		} else {
-			*s.FAR(2) = FARSpec{ID: 2, Action: ActFORW, DstIface: IfAccess, HasFwd: true, HasOHC: true, TEID: 77, PeerIP: ip4("198.18.1.10")}
+			switch r.Ch.Choose(3, "nonnotify") {
+			case 0:
+				*s.FAR(2) = FARSpec{ID: 2, Action: ActFORW, DstIface: IfAccess, HasFwd: true, HasOHC: true, TEID: 77, PeerIP: ip4("198.18.1.10")}
+			case 1: // buffer without asking for notification
+				*s.FAR(2) = FARSpec{ID: 2, Action: ActBUFF, DstIface: IfAccess, HasFwd: true}
+			case 2:
+				*s.FAR(2) = FARSpec{ID: 2, Action: ActDROP, DstIface: IfAccess, HasFwd: true}
+			}
 		}
 		res := p.Establish(s)
 		if !res.Accepted {
